@@ -99,6 +99,16 @@ def rule_outcome(prog):
             where = "arm" if bi in in_arm else "tail"
             res.inst("%s/%s@%d" % (where, rv["v"], bi), line=st.get("ln"))
             if where == "tail":
+                # the per-variant early triggers are evaluated before the release-vs-timeout decision: the tail is
+                # only reached through the match on the HoldTapConfig variant
+                dom = f.dominates(sw.bb, bi)
+                res.inst("tail/%s@%d/after-early-triggers" % (rv["v"], bi), ok=dom)
+                res.oblige(dom)
+                if not dom:
+                    res.viol("tail/%s/before-early-triggers" % rv["v"], "%s:%s" % (f.file, st.get("ln")),
+                             "WaitingAction::%s of the release-vs-timeout decision can be produced without first evaluating the "
+                             "per-variant early triggers (the match on HoldTapConfig does not dominate it): when a trigger and the "
+                             "key's own release are seen in the same evaluation the early hold is lost" % rv["v"])
                 produced_tail.add(rv["v"])
                 ok = rv["v"] in ("Tap", "Timeout")
                 res.oblige(ok)
@@ -177,7 +187,7 @@ def rule_gate(prog):
 
 
 def run_all(prog):
-    return [rule_wait(prog), rule_outcome(prog), rule_gate(prog), rule_permissive(prog)]
+    return [rule_wait(prog), rule_outcome(prog), rule_gate(prog), rule_permissive(prog), rule_queue_cap(prog)]
 
 
 def rule_permissive(prog):
@@ -190,13 +200,32 @@ def rule_permissive(prog):
     if not sws:
         res.viol("shape", f.loc, "handle_hold_tap no longer matches on HoldTapConfig")
         return res
-    region = sws[0].arm_region("PermissiveHold")
+    _permissive_scan(res, f, sws[0].arm_region("PermissiveHold"), "")
+    # the configurable variants (tap-hold-release-keys etc.) implement the same search in closures built by the parser
+    n_custom = 0
+    for g in prog.fns.values():
+        if g.norm.startswith("kanata_parser::cfg::custom_tap_hold::") and g.parent:
+            reg = g.reachable()
+            has_next = any(f_.term(b)["k"] == "call" and (callee_name(f_.term(b)) or "").endswith("::next") for f_ in [g] for b in reg)
+            has_any = any(g.term(b)["k"] == "call" and (callee_written(g.term(b)) or "").endswith("Iterator::any") for b in reg)
+            if has_next and has_any:
+                n_custom += 1
+                res.fn(g)
+                _permissive_scan(res, g, reg, g.norm.split("custom_tap_hold::")[-1] + "/")
+    res.inst("custom-closures", n=n_custom)
+    if n_custom == 0:
+        res.viol("custom-closures", "parser/src/cfg/custom_tap_hold.rs", "no tap-hold-release-keys style closure with a press loop and a release search was found")
+    return res
+
+
+def _permissive_scan(res, f, region, prefix):
+    from kq.core import rvalue_operands
     nexts = [(b, t) for b in region for t in [f.term(b)] if t["k"] == "call" and (callee_name(t) or "").endswith("::next")]
     anys = [(b, t) for b in region for t in [f.term(b)] if t["k"] == "call" and (callee_written(t) or "").endswith("Iterator::any")]
-    res.inst("anchors", next_calls=len(nexts), any_calls=len(anys))
+    res.inst(prefix + "anchors", next_calls=len(nexts), any_calls=len(anys))
     if not nexts or not anys:
-        res.viol("anchors", f.loc, "PermissiveHold arm lost its press loop / release search")
-        return res
+        res.viol(prefix + "anchors", f.loc, "the press loop / release search was not found")
+        return
     # the loop iterator local: `next(&mut it)`
     loop_iters = set()
     for b, t in nexts:
@@ -217,11 +246,39 @@ def rule_permissive(prog):
                     work.extend(rvalue_operands(payload))
                 elif kind == "call":
                     work.extend(payload["args"])
+        if not any("Queued" in (f.local_ty(l) or "") for l in seen):
+            continue   # an any() over something else (e.g. the configured key list), not a search in the event queue
         ok = bool(seen & loop_iters)
-        res.inst("release-search#%d" % n, starts_at_loop_position=ok)
+        res.inst(prefix + "release-search#%d" % n, starts_at_loop_position=ok)
         res.oblige(ok)
         if not ok:
-            res.viol("release-search#%d" % n, "%s:%s" % (f.file, t.get("ln")),
+            res.viol(prefix + "release-search#%d" % n, "%s:%s" % (f.file, t.get("ln")),
                      "the release of the other key is searched in the whole queue instead of after that key's press: a key released "
                      "before it was (re)pressed triggers the hold action early")
+    return
+
+
+def rule_queue_cap(prog):
+    """R-QUEUE-CAP (C05): the property promises that fewer than 32 events are buffered behind an undecided key."""
+    res = RuleResult("R-QUEUE-CAP", "the event queue holds at least the documented 32 events", floor=2)
+    cap = prog.const("kanata_keyberon::layout::QUEUE_SIZE")
+    res.inst("QUEUE_SIZE", value=cap)
+    res.oblige(cap >= 32)
+    if cap < 32:
+        res.viol("QUEUE_SIZE", "keyberon/src/layout.rs", "QUEUE_SIZE is %d: fewer than the 32 events that may be buffered while a tap-hold "
+                 "decision is pending; the overflow path forces the decision and emits a buffered key early" % cap)
+    adt = prog.adt(LAYOUT)
+    ty = None
+    for v in adt["variants"]:
+        for fld in v["fields"]:
+            if fld["name"] == "queue":
+                ty = fld["ty"]
+    import re
+    m = re.search(r"ArrayDeque<[^,]+,\s*(\d+|(?:[A-Za-z_:]*::)?QUEUE_SIZE)\b", ty or "")
+    n = (cap if m.group(1).endswith("QUEUE_SIZE") else int(m.group(1))) if m else None
+    ok = n is not None and n == cap
+    res.inst("Layout.queue", ty=ty, capacity=n)
+    res.oblige(ok)
+    if not ok:
+        res.viol("Layout.queue/capacity", "keyberon/src/layout.rs", "Layout.queue (%s) is not an ArrayDeque of QUEUE_SIZE (%d) events" % (ty, cap))
     return res
